@@ -258,7 +258,7 @@ impl<'a> GExec<'a> {
             }
         }
         let sh = hash_of_sets(&msets);
-        ctx.judged(&["C03", "C08"], sh, "construct", if must_fail { "refuse" } else if either { "either" } else { "accept" });
+        ctx.judged(&["C03", "C08", "C01"], sh, "construct", if must_fail { "refuse" } else if either { "either" } else { "accept" });
         let addr = Address::generate(&env);
         let mut init = SVec::new(&env);
         for s in &msets {
@@ -282,7 +282,7 @@ impl<'a> GExec<'a> {
         ctx.count(&format!("op.construct.{}.{}", if must_fail { "refuse" } else { "accept" }, if ok { "ok" } else { "err" }));
         if must_fail {
             // a set installed twice also corrupts the epoch numbering the retention window is counted in
-            let tags: &[&'static str] = if repeated { &["C03", "C08"] } else { &["C03"] };
+            let tags: &[&'static str] = if repeated { &["C03", "C08", "C01"] } else { &["C03"] };
             if !ctx.check(!ok, tags, "construct/accepted-bad-initial-sets", || {
                 format!("construction with an empty / malformed / repeated initial set list succeeded ({} sets)", msets.len())
             }) {
